@@ -324,6 +324,11 @@ def check_merge_dispatch(ctx: Ctx):
     ctx.decide(fresh and built, "EFFECT", site + ":copy", (fi, b),
                "out-of-place branch merges into a fresh record and returns a new droplet of the same class built from it",
                f"out-of-place branch: out ← {detail or U(ob) if ob is not None else None}; fresh={fresh}, returned-from-out={built}")
+    # operands are only modified on request: merging without the keyword must take the out-of-place branch
+    dflt = fi.default_of("inplace")
+    ctx.decide(isinstance(dflt, ast.Constant) and dflt.value is False, "EFFECT", site + ":default", fi, "inplace defaults to False: a plain merge leaves both operands unmodified",
+               f"`inplace` defaults to {U(dflt) if dflt is not None else 'nothing (required)'}: a plain `a.merge(b)` overwrites `a`, so operands are modified without in-place merging being requested "
+               "(and nested merges a.merge(b.merge(c)) / a.merge(b).merge(c) no longer conserve volume)")
     # the kernel stored on the class is the one the factory returns
     isc = m.func(f"{DROP}.DropletBase.__init_subclass__")
     ok = False
